@@ -428,10 +428,18 @@ int main(int argc, char** argv) {
       resizes = false;
       signaling = true;
     }
-    bool parkFirst = !chain && sc.poolSize > 0 && signaling && rng.below(3) == 0;   // workers asleep: proactive wake / steal rings
+    bool sleepy = flavour == 4;   // workers are let to park between submissions: ring-routed bulk, then placed tasks through steal rings
+    if (sleepy) {
+      sc.poolSize = 2 + (int)rng.below(2);
+      sc.loadMult = 32;
+      sc.producers = (int)rng.below(2);
+      resizes = false;
+      signaling = true;
+    }
+    bool parkFirst = sleepy || (!chain && sc.poolSize > 0 && signaling && rng.below(3) == 0);   // workers asleep: proactive wake / steal rings
     std::string desc = "sched pool=" + std::to_string(sc.poolSize) + " load=" + std::to_string(sc.loadMult) +
         " producers=" + std::to_string(sc.producers) + " resizes=" + std::to_string(resizes) + " chain=" + std::to_string(chain) +
-        " park=" + std::to_string(parkFirst) + " throwing=" +
+        " park=" + std::to_string(parkFirst) + " sleepy=" + std::to_string(sleepy) + " throwing=" +
         std::to_string(sc.throwing) + " signaling=" + std::to_string(signaling) + " seed=" + std::to_string(o.seed);
     auto& c = dsh::stuckCtx();
     c.signature = resizes ? "pool / task-set operation never returns while the pool is being resized"
@@ -463,7 +471,7 @@ int main(int argc, char** argv) {
               std::this_thread::sleep_for(std::chrono::microseconds(100));
             }
           }
-          dispenso::ConcurrentTaskSet shared(pool, rng.below(2) ? dispenso::TaskCost::kHeavy : dispenso::TaskCost::kLightweight,
+          dispenso::ConcurrentTaskSet shared(pool, (sleepy || rng.below(2)) ? dispenso::TaskCost::kHeavy : dispenso::TaskCost::kLightweight,
                                              (ssize_t)(chain ? 0 : (rng.below(2) ? 4 : 1)));
           int sharedId = ++g_numSets;
           g_sets[sharedId - 1] = static_cast<dispenso::TaskSetBase*>(&shared);
@@ -499,7 +507,37 @@ int main(int argc, char** argv) {
             ths.emplace_back([ap] { runOps(*ap, 1 + (int)ap->rng.below(4), 1); });
           }
           Actor mainA(&sc, rng.next(), &shared, sharedId);
-          int steps = 1 + (int)mainA.rng.below(4);
+          auto waitParked = [&] {
+            for (int i = 0; i < 300; ++i) {
+              auto* ws = pool.wakeState_.load(std::memory_order_relaxed);
+              if (ws && ws->totalSleeping() == sc.poolSize) break;
+              std::this_thread::sleep_for(std::chrono::microseconds(100));
+            }
+          };
+          if (sleepy) {
+            // a ring-routed bulk (count about the pool size) makes the workers prefer their rings …
+            {
+              dispenso::TaskSet ts(pool);
+              dsched::noPreempt(true);
+              int set = ++g_numSets;
+              g_sets[set - 1] = static_cast<dispenso::TaskSetBase*>(&ts);
+              book.parentOf[set] = 0;
+              dsched::noPreempt(false);
+              bulkOn(mainA, ts, set, false, sc.poolSize, 0);
+              waitOn(ts, set, idsOfSet(set), false, mainA.rng);
+              dsched::note("call wait %d", set);
+              ts.wait();
+              dsched::note("ret wait %d 1 0", set);
+            }
+            // … then placed / plain tasks arrive while they are parked
+            int rounds = 2 + (int)mainA.rng.below(3);
+            for (int r = 0; r < rounds; ++r) {
+              waitParked();
+              if (mainA.rng.below(3) != 0) singleOn(mainA, shared, sharedId, mainA.rng.below(3) == 0, 0);
+              else runOps(mainA, 1, 1);
+            }
+          }
+          int steps = sleepy ? 0 : 1 + (int)mainA.rng.below(4);
           for (int s = 0; s < steps; ++s) {
             if (resizes && mainA.rng.below(2) == 0) {
               int n = (int)mainA.rng.below(4);
